@@ -204,7 +204,7 @@ def _d5(chk, fb):
     import re
     n = 0
     for f in fb.concrete_fns():
-        if f.body is None or not f.relfile.endswith("Bpp/Numeric/Prob/Simplex.cpp"):
+        if f.body is None or not f.relfile.endswith(("Bpp/Numeric/Prob/Simplex.cpp", "Bpp/Numeric/Prob/Simplex.h")):
             continue
         for lp in [x for x in f.all_nodes() if x["k"] == "ForStmt" and x.get("cond") is not None and x.get("body") is not None]:
             cond = strip(f.nodes[lp["cond"]])
@@ -237,6 +237,29 @@ def _d5(chk, fb):
                                             witness={"history": "a parameter update after construction: the first stored value is stale"})
                         else:
                             chk.unknown("D5", f.key, con, f.loc(w), "index form '%s' not related to the counter" % idx)
+    # the same countdown spelled 'i = N; while (i > 0) { --i; ... v[i] ... }': the decrement comes first, so the stores run N-1..0
+    for f in fb.concrete_fns():
+        if f.body is None or not f.relfile.endswith(("Bpp/Numeric/Prob/Simplex.cpp", "Bpp/Numeric/Prob/Simplex.h")):
+            continue
+        for lp in [x for x in f.all_nodes() if x["k"] == "WhileStmt" and x.get("cond") is not None and x.get("body") is not None]:
+            cond = strip(f.nodes[lp["cond"]])
+            if not (cond["k"] == "BinaryOperator" and cond["op"] in (">", "!=") and strip(kids(cond)[0])["k"] == "DeclRefExpr" and strip(kids(cond)[1])["k"] == "IntegerLiteral" and strip(kids(cond)[1])["val"] == 0):
+                continue
+            iv = strip(kids(cond)[0])["decl"]["name"]
+            body = f.nodes[lp["body"]]
+            stmts = kids(body) if body["k"] == "CompoundStmt" else [body]
+            first_dec = bool(stmts) and render(stmts[0]) in ("--%s" % iv, "%s--" % iv, "(%s -= 1)" % iv)
+            for w in walk(body):
+                if w["k"] in ("BinaryOperator", "CompoundAssignOperator") and w.get("op", "").endswith("=") and w["op"] not in ("==", "!=", "<=", ">="):
+                    l_ = strip(kids(w)[0])
+                    if is_call(l_) and l_.get("op") == "[]" and "obj" in l_:
+                        vec = strip(f.obj(l_))
+                        if vec["k"] == "MemberExpr" and vec["member"].get("this") and render(f.args(l_)[0]) == iv:
+                            n += 1
+                            if first_dec:
+                                chk.proved("D5", f.key, "countdown:%s[%s]" % (vec["member"]["name"], iv), f.loc(w), "'%s' is decremented at the top of the body: the stores run from N-1 down to 0" % iv)
+                            else:
+                                chk.unknown("D5", f.key, "countdown:%s[%s]" % (vec["member"]["name"], iv), f.loc(w), "while-form countdown whose decrement is not the first statement of the body")
     chk.floor("D5", "countdown loops storing into member vectors", n, 1)
 
 
